@@ -644,6 +644,12 @@ fn explore(
         let again = run(plan, &item.cfg, &item.seed, ops, scratch, scan_stats, false);
         if !again.findings.iter().any(|(s, _)| s == sig) {
             rep.count("non_reproducible_findings", 1);
+            eprintln!(
+                "NOT REPRODUCED {sig}: {detail}; cfg {} seed {} ops {:?}",
+                item.cfg.name,
+                item.seed_name,
+                ops.iter().map(|o| o.name()).collect::<Vec<_>>()
+            );
             continue;
         }
         let mut all: Vec<Op> = item.seed.clone();
